@@ -451,6 +451,7 @@ func ruleC10(r *Report) {
 
 	checkC10Framing(r, p)
 	safely(r, func() { checkLengthGates(r, p, "C10.framing") })
+	safely(r, func() { checkWrappedKeyLength(r, p, "C10.framing") })
 	safely(r, func() { checkPadding(r, NewAnalysis(p), sc, "C10.padding", true) })
 	checkC10Digest(r, p)
 	safely(r, func() { checkDigestAdvertised(r, p, "C10.digest") })
@@ -1091,6 +1092,68 @@ func checkLengthGates(r *Report, p *Prog, rule string) {
 }
 
 var constTokenRe = regexp.MustCompile(`c:(\d+)`)
+
+// checkWrappedKeyLength: C10.framing, key-transport part. How long a wrapped key is follows from the recipient's modulus
+// (ceil(bits/8) bytes, whatever the bit length) and is judged by crypto/rsa; a reject condition of (RSA).Decrypt or its
+// helpers that compares the length of a byte string with anything but zero refuses conforming wrapped keys for some key
+// sizes or some content-key sizes.
+func checkWrappedKeyLength(r *Report, p *Prog, rule string) {
+	dec := p.MustFunc("xmlenc", "RSA", "Decrypt")
+	for _, f := range helperRegion(p, dec, 3) {
+		a := NewAnalysis(p)
+		fc := a.Ctx(f)
+		fc.ensureConds()
+		rej := fc.NotAcceptFormula()
+		var bad []string
+		for _, nm := range a.B.Support(rej) {
+			ai := a.Atoms[nm]
+			if ai == nil || ai.Fn != f || (ai.Kind != "lt" && ai.Kind != "eq") || len(ai.Vals) != 2 {
+				continue
+			}
+			onLen, zero := false, false
+			for _, v := range ai.Vals {
+				if k, ok := constInt(v); ok && k == 0 {
+					zero = true
+				}
+				if mentionsByteLen(v, 0) {
+					onLen = true
+				}
+			}
+			if onLen && !zero {
+				bad = append(bad, nm)
+			}
+		}
+		sort.Strings(bad)
+		cons := fmt.Sprintf("%s: the wrapped key's length is left to crypto/rsa", p.FnName(f))
+		r.Check(len(bad) == 0, rule, cons, p.Pos(f.Pos()), "no reject condition compares the length of a byte string with anything but zero", "a reject condition compares the length of a byte string ("+strings.Join(bad, ", ")+"): wrapped keys are ceil(bits/8) bytes for any modulus size and carry content keys of several sizes, so conforming input is refused for some of them")
+	}
+}
+
+// mentionsByteLen: v is computed from len(x) for a byte slice or string x.
+func mentionsByteLen(v ssa.Value, depth int) bool {
+	if depth > 4 {
+		return false
+	}
+	switch x := v.(type) {
+	case *ssa.Call:
+		if la := lenArg(x); la != nil {
+			switch t := la.Type().Underlying().(type) {
+			case *types.Slice:
+				bt, ok := t.Elem().Underlying().(*types.Basic)
+				return ok && bt.Kind() == types.Uint8
+			case *types.Basic:
+				return t.Info()&types.IsString != 0
+			}
+		}
+	case *ssa.BinOp:
+		return mentionsByteLen(x.X, depth+1) || mentionsByteLen(x.Y, depth+1)
+	case *ssa.Convert:
+		return mentionsByteLen(x.X, depth+1)
+	case *ssa.ChangeType:
+		return mentionsByteLen(x.X, depth+1)
+	}
+	return false
+}
 
 // checkDigestAdvertised: C10.digest, encrypt side (writer/reader agreement with the decrypter's "SHA-1 only when the
 // element names no digest"). RSA.Encrypt names the digest it wrapped the key with: the ds:DigestMethod element is
